@@ -760,4 +760,175 @@ theorem kf11_own_minimum_raise_undercounted :
     cur_hop_transferred_amount_msat 1 3 0 = 4 ∧ 4 < 5 ∧ 5 + 5 > 9 ∧ 4 + 4 ≤ 9 := by
   refine ⟨by decide, by decide, by decide, by decide, by decide⟩
 
+/-! ### C16-r5: what a supplied first hop may carry — the CURRENT bounds of its `ChannelDetails`
+    (`first_hop_htlc_minimum_msat`, `first_hop_effective_capacity`, … are TRANSLATED from the FirstHop arms of
+    router.rs `CandidateRouteHop::{htlc_minimum_msat, effective_capacity, …}` over a record of the ChannelDetails /
+    ChannelCounterparty fields — Generated/RouterFirstHop.lean; an arm reading another field still translates and
+    these theorems stop checking) -/
+
+/-- the minimum the router requires on a first hop is the channel's CURRENT minimum
+    (`ChannelDetails::next_outbound_htlc_minimum_msat`), whatever the counterparty's static minimum, the capacities
+    and the inbound bounds say -/
+theorem first_hop_minimum_is_current_minimum (d : FirstHopDetails) :
+    first_hop_htlc_minimum_msat d = d.next_outbound_htlc_minimum_msat := by
+  unfold first_hop_htlc_minimum_msat
+  rfl
+
+/-- a channel whose current minimum (dust exposure nearly used) is far above the peer's static one / whose static one is unknown -/
+def exDetails : FirstHopDetails :=
+  { next_outbound_htlc_minimum_msat := 1000000, next_outbound_htlc_limit_msat := 10000000, outbound_capacity_msat := 20000007,
+    inbound_capacity_msat := 42, channel_value_satoshis := 20008, inbound_htlc_minimum_msat := some 1, inbound_htlc_maximum_msat := none,
+    is_announced := false, short_channel_id := some 1000001, outbound_scid_alias := some 2000001,
+    counterparty_outbound_htlc_minimum_msat := some 1000, counterparty_outbound_htlc_maximum_msat := some 30000011 }
+example : first_hop_htlc_minimum_msat exDetails = 1000000 := by decide
+example : first_hop_htlc_minimum_msat { exDetails with counterparty_outbound_htlc_minimum_msat := none } = 1000000 := by decide
+
+/-- … and the maximum is the CURRENT limit (`next_outbound_htlc_limit_msat`), at every saturation power -/
+theorem first_hop_limit_is_current_limit (d : FirstHopDetails) (pow : Nat) :
+    first_hop_effective_capacity d = .exactLiquidity d.next_outbound_htlc_limit_msat ∧
+    max_htlc_from_capacity (first_hop_effective_capacity d) pow = d.next_outbound_htlc_limit_msat := by
+  unfold first_hop_effective_capacity max_htlc_from_capacity
+  exact ⟨rfl, rfl⟩
+example : max_htlc_from_capacity (first_hop_effective_capacity exDetails) 2 = 10000000 := by decide
+
+/-- the first hop is known to scorers under a globally unique scid only if the channel is announced, and to the route under
+    the outbound payment scid -/
+theorem first_hop_ids_are_the_details_ids (d : FirstHopDetails) :
+    first_hop_globally_unique_scid d = (if d.is_announced then d.short_channel_id else none) ∧
+    first_hop_short_channel_id d = get_outbound_payment_scid d.outbound_scid_alias d.short_channel_id := by
+  unfold first_hop_globally_unique_scid first_hop_short_channel_id
+  exact ⟨rfl, rfl⟩
+example : first_hop_globally_unique_scid exDetails = none ∧ first_hop_short_channel_id exDetails = some 2000001 := by decide
+
+/-- the candidate the model (and the driver, for every `f` entry of an op line) builds from a `ChannelDetails`: what it requires
+    and allows are the current bounds; no fee, no CLTV delta -/
+theorem first_hop_candidate_bounds (d : FirstHopDetails) (src dst : Nat) (u : Bool) (c : Chan)
+    (h : firstHopChan d src dst u = some c) :
+    c.kind = .firstHop ∧ c.minMsat = d.next_outbound_htlc_minimum_msat ∧ c.limit = d.next_outbound_htlc_limit_msat ∧
+    c.feeBase = 0 ∧ c.feeProp = 0 ∧ c.cltvDelta = 0 ∧ c.src = src ∧ c.dst = dst ∧ c.enabled = u := by
+  unfold firstHopChan at h
+  cases hi : firstHopIds d.outbound_scid_alias d.short_channel_id with
+  | none => simp [hi] at h
+  | some ids =>
+    obtain ⟨scid, alt⟩ := ids
+    simp only [hi, Option.some.injEq] at h
+    subst h
+    exact ⟨rfl, rfl, rfl, rfl, rfl, rfl, rfl, rfl, rfl⟩
+example : (firstHopChan exDetails 0 1 true).map (fun c => (c.scid, c.alt, c.minMsat, c.limit)) = some (2000001, some 1000001, 1000000, 10000000) := by decide
+
+/-- THE CLAUSE "every hop carries at least that channel's minimum", for the supplied first hops, on the ChannelDetails:
+    in a valid route every path whose first hop stands for the candidate of a supplied `ChannelDetails` carries at least that
+    channel's CURRENT minimum over it (the amount over the first channel = all `fee_msat`s of the path), and the channel is usable -/
+theorem valid_route_first_hop_meets_current_minimum (g : Graph) (p : Params) (r : Route) (h : RouteOK g p r)
+    (d : FirstHopDetails) (src dst : Nat) (u : Bool) (c : Chan) (hc : firstHopChan d src dst u = some c) :
+    ∀ path ∈ r, ∀ hd tl, path = hd :: tl → resolve g p p.payer hd = some c →
+      d.next_outbound_htlc_minimum_msat ≤ pathAmount path ∧ u = true := by
+  obtain ⟨_, hmin, _, _, _, _, _, _, hen⟩ := first_hop_candidate_bounds d src dst u c hc
+  intro path hp hd tl hpath hres
+  have hch := h.chain path hp
+  subst hpath
+  cases hch with
+  | last _ _ c0 hl hok _ _ =>
+    rw [hres] at hl
+    have : c = c0 := by simpa using hl
+    subst this
+    refine ⟨?_, ?_⟩
+    · have := hok.2.2.1
+      rw [hmin] at this
+      simpa [pathAmount] using this
+    · rw [← hen]; exact hok.2.1
+  | cons _ _ h' t c0 c' f _ hl hok _ _ _ _ _ =>
+    rw [hres] at hl
+    have : c = c0 := by simpa using hl
+    subst this
+    refine ⟨?_, ?_⟩
+    · have := hok.2.2.1
+      rw [hmin] at this
+      exact this
+    · rw [← hen]; exact hok.2.1
+
+/-- … and jointly over all paths no more than its CURRENT limit (apart from the deliberate raises the route reports as fees) -/
+theorem valid_route_first_hop_within_current_limit (g : Graph) (p : Params) (r : Route) (h : RouteOK g p r)
+    (d : FirstHopDetails) (src dst : Nat) (u : Bool) (c : Chan) (hc : firstHopChan d src dst u = some c) (hg : c ∈ g) :
+    usageOn g p r c ≤ d.next_outbound_htlc_limit_msat := by
+  obtain ⟨_, _, hlim, _⟩ := first_hop_candidate_bounds d src dst u c hc
+  rw [← hlim]; exact h.capacity c hg
+
+/-- demo of the seeded change C16-r5 on the model: 100000 msat over the channel `exDetails` (current minimum 1000000, peer's static
+    minimum 1000) is NOT a valid route … -/
+def exR5Graph : Graph :=
+  (firstHopChan exDetails 0 1 true).toList ++
+  [ { scid := 2, src := 1, dst := 2, enabled := true, htlcMin := 0, htlcMax := 1000000000, cap := none, base := 0, prop := 0, cltv := 40 },
+    { scid := 2, src := 2, dst := 1, enabled := true, htlcMin := 0, htlcMax := 1000000000, cap := none, base := 0, prop := 0, cltv := 40 } ]
+def exR5Params : Params :=
+  { payer := 0, payee := 2, amount := 100000, maxFee := none, maxCltv := 1008, maxPaths := 1, maxLen := 19, finalCltv := 40, excluded := [],
+    hasFirst := true, excludedBlinded := [] }
+example : verdict exR5Graph exR5Params [ [ { scid := 2000001, node := 1, fee := 0, cltv := 40 }, { scid := 2, node := 2, fee := 100000, cltv := 40 } ] ] = "invalid chain" := by decide
+/-- … while 1000000 msat is -/
+example : verdict exR5Graph { exR5Params with amount := 1000000 } [ [ { scid := 2000001, node := 1, fee := 0, cltv := 40 }, { scid := 2, node := 2, fee := 1000000, cltv := 40 } ] ] = "valid" := by decide
+
+/-! ### C16-r5: the htlc-minimum gate of `add_entry!` (translated `over_path_minimum_msat` /
+    `may_overpay_to_meet_path_minimum_msat`, pinned guard chain) -/
+
+/-- a candidate that passes the minimum guards of add_entry! for the amount it would carry meets its own htlc_minimum AND the
+    minimum the following hops need (`path_htlc_minimum_msat` of the next entry) -/
+theorem add_entry_gate_meets_minimums (amt hmin nextmin rec : Nat) (h : add_entry_minimum_gate amt hmin nextmin rec = true) :
+    hmin ≤ amt ∧ nextmin ≤ amt := by
+  unfold add_entry_minimum_gate over_path_minimum_msat at h
+  simp only [Bool.and_eq_true, decide_eq_true_eq, ge_iff_le] at h
+  exact h.2
+
+/-- … and nothing more: every candidate whose amount meets both minimums passes (the "may overpay" guard never fires then) -/
+theorem add_entry_gate_complete (amt hmin nextmin rec : Nat) (h1 : hmin ≤ amt) (h2 : nextmin ≤ amt) :
+    add_entry_minimum_gate amt hmin nextmin rec = true := by
+  unfold add_entry_minimum_gate over_path_minimum_msat may_overpay_to_meet_path_minimum_msat
+  have n1 : ¬ amt < hmin := Nat.not_lt.mpr h1
+  have n2 : ¬ amt < nextmin := Nat.not_lt.mpr h2
+  simp [h1, h2, n1, n2]
+
+/-- a candidate below a minimum is either retried with the recommended value (`hit_minimum_limit`) or silently skipped, never used -/
+theorem add_entry_below_minimum_never_admitted (amt hmin nextmin rec : Nat) (h : amt < hmin ∨ amt < nextmin) :
+    add_entry_minimum_gate amt hmin nextmin rec = false := by
+  cases hg : add_entry_minimum_gate amt hmin nextmin rec with
+  | false => rfl
+  | true =>
+    have := add_entry_gate_meets_minimums amt hmin nextmin rec hg
+    omega
+example : add_entry_minimum_gate 100000 1000000 0 300000 = false ∧ may_overpay_to_meet_path_minimum_msat 100000 1000000 0 300000 = false := by decide
+example : add_entry_minimum_gate 400000 1000000 0 1200000 = false ∧ may_overpay_to_meet_path_minimum_msat 400000 1000000 0 1200000 = true := by decide
+example : add_entry_minimum_gate 1000000 1000000 5 1200000 = true := by decide
+
+/-! ### C16-r5: the liquidity side of `add_entry!` (statements translated one by one, order pinned) -/
+
+/-- a candidate that add_entry! lets contribute (its value contribution reaches the positive minimal contribution) would carry the
+    contribution plus the fees of the following hops, and — together with what earlier paths already booked on it
+    (`used_liquidities`) — at most `htlc_maximum_msat = max_htlc_from_capacity(effective_capacity, saturation)`; the contribution
+    is at most what the following hops can take -/
+theorem add_entry_amount_within_remaining_limit (hmax fee used nvc v a minimal : Nat)
+    (h : add_entry_amounts hmax fee used nvc = some (v, a))
+    (hs : contributes_sufficient_value v minimal = true) (hm : 0 < minimal) :
+    a = v + fee ∧ a + used ≤ hmax ∧ v ≤ nvc := by
+  unfold add_entry_amounts chkSub chkAdd64 at h
+  unfold contributes_sufficient_value at hs
+  have hs' : minimal ≤ v := by simpa using hs
+  by_cases h1 : fee ≤ hmax
+  · by_cases h2 : Nat.min (hmax - fee - used) nvc + fee < 2 ^ 64
+    · simp only [h1, h2, if_true, Option.bind_some, Option.map_some, Option.some.injEq, Prod.mk.injEq] at h
+      obtain ⟨hv, ha⟩ := h
+      have l1 : Nat.min (hmax - fee - used) nvc ≤ hmax - fee - used := Nat.min_le_left _ _
+      have l2 : Nat.min (hmax - fee - used) nvc ≤ nvc := Nat.min_le_right _ _
+      omega
+    · simp [h1, h2] at h
+  · simp [h1] at h
+
+/-- the amounts, in closed form (u64 inputs; `none` only when the following hops' fees alone exceed the maximum) -/
+theorem add_entry_amounts_value (hmax fee used nvc : Nat) (h1 : fee ≤ hmax) (h2 : hmax < 2 ^ 64) :
+    add_entry_amounts hmax fee used nvc = some (Nat.min (hmax - fee - used) nvc, Nat.min (hmax - fee - used) nvc + fee) := by
+  unfold add_entry_amounts chkSub chkAdd64
+  have l1 : Nat.min (hmax - fee - used) nvc ≤ hmax - fee - used := Nat.min_le_left _ _
+  have h3 : Nat.min (hmax - fee - used) nvc + fee < 2 ^ 64 := by omega
+  simp [h1, h3]
+example : add_entry_amounts 9 1 4 100 = some (4, 5) := by decide
+example : add_entry_amounts 9 10 0 100 = none := by decide
+
 end Ldk.C16
